@@ -525,6 +525,27 @@ func run(r *ev.Run) {
 // attempts of 15 s each, against milliseconds for the control) is a violation.
 var spellings = []string{"clean", "dot-segment", "double-slash", "dot-dot", "relative", "symlink-other-dir", "clean+atomic-replace", "clean+bad-then-good"}
 
+// RefreshDeadlock runs, for the property named id (C16), the binding runs in which lookups
+// overlap refreshes of the real watcher (good, malformed, good again): a lookup that never
+// returns is a deadlock between the refresh goroutine and the handlers.
+func RefreshDeadlock(r *ev.Run, id string) {
+	got := map[string]string{}
+	for _, sp := range []string{"clean", "clean+bad-then-good"} {
+		res := reg.Spawn(r, "C10", 3*time.Minute, "spelling", sp)
+		out := "died"
+		if i := strings.Index(res.Output, "@@SPELLING "); i >= 0 && !res.Hung {
+			out = strings.TrimSpace(strings.SplitN(res.Output[i+len("@@SPELLING "):], "\n", 2)[0])
+		} else if strings.Contains(res.Output, "@@HANG") {
+			out = "lookup-blocked"
+		}
+		got[sp] = out
+		r.Eval("refresh-vs-lookups/" + sp + "/" + out)
+	}
+	if got["clean"] == "loaded" && got["clean+bad-then-good"] == "lookup-blocked" {
+		r.Violate(id+"/refresh-deadlock", "real watcher: after a failed refresh and one more file event a static-lease lookup never returned (30 s operation watchdog): the refresh goroutine and the handlers block each other, no later datagram through the file plugin is answered", map[string]interface{}{"spelling": "clean+bad-then-good"})
+	}
+}
+
 func spellingRuns(r *ev.Run) {
 	r.Rule("Binding runs with the real watcher, one process per spelling of the configured path {clean, dir/./f, dir//f, dir/sub/../f, ./f relative to the working directory, symlink into another directory} and, for the clean spelling, an atomic replacement (temporary file renamed over the lease file): a well-formed update is loaded (control-calibrated: verdicts only when the clean spelling loads).")
 	got := map[string]string{}
